@@ -88,6 +88,42 @@ class Recorder:
         self.evs.append(ev)
         return ev
 
+    def rec_obj(self, o, how):
+        """the object as it is NOW (after the caller assigned attributes): everything it prints / compares"""
+        ev = {"tid": self._tid(), "op": "obj", "how": how, "f": _fields(o), "ds": 1 if o.is_device_settings else 0,
+              "bs": 1 if o.is_baltech_naming_scheme else 0, "sk": "ok", "s": [], "scls": "", "ck": "ok", "cs": [],
+              "pk": "skip", "g": NOF, "pcls": "", "pmro": [], "eq": 1}
+        fresh = object.__new__(type(o))
+        for a in ("customer", "project", "device", "version", "name"):
+            setattr(fresh, a, getattr(o, a))
+        try:
+            if not (o == fresh and fresh == o and not (o != fresh) and repr(o) == repr(fresh)):
+                ev["eq"] = 0
+        except Exception:                                         # noqa: BLE001
+            ev["eq"] = 0
+        try:
+            cs = o.cfgid_str
+            if cs is None:
+                ev["ck"] = "none"
+            else:
+                ev["cs"] = chars(cs)
+        except Exception:                                         # noqa: BLE001
+            ev["ck"] = "raise"
+        try:
+            s = str(o)
+            ev["s"] = chars(s)
+        except Exception as e:                                    # noqa: BLE001
+            ev["sk"], ev["scls"] = "raise", type(e).__name__
+            self.evs.append(ev)
+            return ev
+        try:
+            ev["pk"], ev["g"] = "ok", _fields(self.ConfigId.create_from_str(s))
+        except Exception as e:                                    # noqa: BLE001
+            ev["pk"] = "raise"
+            ev["pcls"], ev["pmro"] = _exc(e)
+        self.evs.append(ev)
+        return ev
+
     def rec_parse(self, text):
         ev = {"tid": self._tid(), "op": "parse", "text": chars(text), "k": "ok", "f": NOF, "cls": "", "mro": [],
               "rk": "skip", "r": [], "rcls": ""}
@@ -336,16 +372,44 @@ def gen_events(rec, r, thorough):
                 # the undecodable name belongs to the OTHER kind (whose version is present): this kind's identifier is fine
                 rec.rec_derive(which, {**vals, mine: b"ok", others: nb, over: b"\x05"}, {})
     n_special = len(rec.evs) - n_before
+    # ---- attribute-assignment histories: construct / parse / derive, print, assign each public attribute (new value, None,
+    #      9999, the value it has), print and compare again: every print is judged against the CURRENT attribute values
+    n_before = len(rec.evs)
+    cfgA = {(0x0620, vid): b for vid, b in A.items()}
+    sources = [("ConfigId(1, 2, 3, 4, 'Reader A')", lambda: rec.ConfigId(1, 2, 3, 4, "Reader A")),
+               ("ConfigId(12345, 17, 0, 5, None)", lambda: rec.ConfigId(12345, 17, 0, 5, None)),
+               ("ConfigId(4711, 9999, 815, 99, 'x')", lambda: rec.ConfigId(4711, 9999, 815, 99, "x")),
+               ("ConfigId(None, None, None, 7, 'Door')", lambda: rec.ConfigId(None, None, None, 7, "Door")),
+               ("create_from_str('54321-0001-0002-03 Office')", lambda: rec.ConfigId.create_from_str("54321-0001-0002-03 Office")),
+               ("create_from_str('Door (version 07)')", lambda: rec.ConfigId.create_from_str("Door (version 07)")),
+               ("create_from_prj_settings", lambda: rec.ConfigId.create_from_prj_settings(dict(cfgA))),
+               ("create_from_dev_settings", lambda: rec.ConfigId.create_from_dev_settings(dict(cfgA)))]
+    for how, make in sources:
+        for order in (("customer", "project", "device", "version", "name"), ("name", "version", "device", "project", "customer")):
+            o = make()
+            rec.rec_obj(o, how)
+            for attr in order:
+                orig = getattr(o, attr)
+                if attr == "name":
+                    values = ["New name", None, "", "12345-0001-0002-03", orig]
+                elif attr == "version":
+                    values = [((orig or 0) + 1) % 100, 0, 99, None, orig]
+                else:
+                    values = [((orig or 0) + 1) % 9999, None, 9999, 0, orig]
+                for val in values:
+                    setattr(o, attr, val)
+                    rec.rec_obj(o, "%s, then %s = %r" % (how, attr, val))
+    n_assign = len(rec.evs) - n_before
     return {"numeric_range_ids": n_numeric, "id_events": n_ids, "parse_events": n_parse, "derive_events": n_derive,
             "returned_object_history_events": n_obj_hist, "names_related_to_own_fields_events": n_related,
-            "special_character_and_undecodable_name_events": n_special}
+            "special_character_and_undecodable_name_events": n_special, "attribute_assignment_history_events": n_assign}
 
 
 _HEAD = re.compile(r"\d{5}-\d{4}-\d{4}-\d{2}")
 
 
 def _key_for(clause, ev):
-    if ev["op"] == "id":
+    if ev["op"] in ("id", "obj"):
         f = ev["f"]
         if clause == "str-raised" and ev["scls"] == "TypeError" and f["c"] != -1 and f["d"] == -1:
             return KF_TYPEERR
@@ -376,6 +440,13 @@ def _show(ev):
             s += " create_from_str -> " + ident(ev["g"])
         elif ev["pk"] == "raise":
             s += " create_from_str raised " + ev["pcls"]
+        return s
+    if ev["op"] == "obj":
+        s = "%s: object now %s" % (ev["how"], ident(ev["f"]))
+        s += (" str() raised " + ev["scls"]) if ev["sk"] == "raise" else " str() = %r" % "".join(map(chr, ev["s"]))
+        s += " cfgid_str = %s" % (repr("".join(map(chr, ev["cs"]))) if ev["ck"] == "ok" else ev["ck"])
+        if ev["pk"] == "ok":
+            s += " create_from_str -> " + ident(ev["g"])
         return s
     if ev["op"] == "parse":
         s = "create_from_str(%r)" % "".join(map(chr, ev["text"]))
